@@ -22,13 +22,14 @@ RULE = ("cases: random recipes (all connectives, DAG sharing, integer leaves inc
 BUDGET = {"quick": (12, 260, 90), "thorough": (16, 2200, 1200)}
 PYTEST = True     # thorough tier also runs the repository's own tests under these monitors
 MANDATORY = ["judged:node-value", "judged:top-present", "judged:evaluate==top-entry", "judged:variable.evaluate",
-             "contract:AtLeast.evaluate_propositions", "contract:AtLeast.evaluate", "count:override-cases", "count:out-of-bounds-values", "count:same-object-same-dict-calls", "count:what-if-sequences", "count:dict-subclass-interpretations"]
+             "contract:AtLeast.evaluate_propositions", "contract:AtLeast.evaluate", "count:override-cases", "count:out-of-bounds-values", "count:same-object-same-dict-calls", "count:what-if-sequences", "count:dict-subclass-interpretations", "count:open-interval-on-compound"]
 
 
 def split_interpretation(graph, interp):
     """-> (x over leaves, overrides over compounds) if every named id has a constant value and all leaves
     are fixed; else None (partial / interval interpretations are C06/C07 territory)"""
     x, ov = {}, {}
+    split_interpretation.named_open = set()
     for k, v in interp.items():
         if k not in graph:
             continue
@@ -38,6 +39,11 @@ def split_interpretation(graph, interp):
             c = int(v[0])
         elif isinstance(v, puan.Bounds) and v.lower == v.upper:
             c = int(v.lower)
+        elif not graph[k]["leaf"] and ((isinstance(v, tuple) and tuple(v) == (0, 1)) or (isinstance(v, puan.Bounds) and v.as_tuple() == (0, 1))):
+            if graph[k]["b"][0] == graph[k]["b"][1]:
+                return None   # open bounds given for a node that its own bounds fix: the statement does not say which of the two wins
+            split_interpretation.named_open.add(k)
+            continue          # bounds that do not fix the node: it is still computed bottom-up
         else:
             return None
         if graph[k]["leaf"]:
@@ -60,7 +66,12 @@ def snap(args, kwargs):
     if sp is None:
         return None
     x, ov = sp
-    vis = refmodel.visible(graph, top, ov)
+    # what must be reported: everything that is not below a fixed node; the library also stops reporting below a node that the
+    # interpretation mentions with open bounds (the node itself is reported and must have the computed value) -- not demanded
+    cut = dict(ov)
+    for k in split_interpretation.named_open:
+        cut.setdefault(k, None)
+    vis = refmodel.visible(graph, top, cut)
     # every leaf that the evaluation can reach must be fixed (by the interpretation or by its bounds);
     # leaves that are only below a fixed node cannot influence a reported value
     full = {}
@@ -234,6 +245,10 @@ def _run_one(case, ctx):
                 interp[c] = common.value_form(rng, rng.choice([0, 1]))
         if rng.random() < 0.2:
             interp["no-such-id"] = 1
+        if rng.random() < 0.2 and comp:
+            # a sub-proposition mentioned with bounds that leave it open (e.g. taken over from an earlier partial evaluation)
+            interp[rng.choice(comp)] = rng.choice([(0, 1), puan.Bounds(0, 1)])
+            ctx.count("count:open-interval-on-compound")
         mode = rng.random()
         if rng.random() < 0.15 and all(isinstance(v, int) and not isinstance(v, bool) for v in interp.values()):
             # other mapping types a caller may hold its values in (they are dicts): missing keys must stay missing
